@@ -175,7 +175,7 @@ def judge_full(case, out):
 
 class Check(PropertyCheck):
     pid = "C10"
-    gen_files = ["GenAsh", "GenProto", "GenCmd", "GenGatewayFn"]
+    gen_files = ["GenAsh", "GenProto", "GenCmd", "GenGatewayFn", "GenAshFn", "GenGatewayAsyncFn"]
     model_imports = ["gen.GenAsh", "model.Gateway"]
     run_expr = "run_gateway_case"
     case_type = "(list (N * list (N * N)))"
